@@ -319,7 +319,8 @@ def r4(ctx, vals):
     mv = more_var(ctx, fn)
     if mv is None:
         raise AnalysisBroken('C14.R4: the return of RESULT_CONTINUE was not recognised')
-    mores = [nid for nid, d, rhs, op, lhs in fn.assignments() if d and d.endswith(':' + mv) and rhs is not None and fn.val(rhs) == 1]
+    # every assignment that may set the flag (a constant true or a computed value)
+    mores = [nid for nid, d, rhs, op, lhs in fn.assignments() if d and d.endswith(':' + mv) and rhs is not None and fn.val(rhs) != 0 and op != 'init']
     if len(mores) < 1:
         raise AnalysisBroken('C14.R4: "more" assignments not recognised')
     b1, b2, mask = vals.get('ENH_BYTE1'), vals.get('ENH_BYTE2'), vals.get('ENH_BYTE_MASK')
@@ -762,7 +763,10 @@ def r15(ctx):
     stops = set()
     for b in fn.all('BreakStmt', 'ReturnStmt'):
         for k, p in ((a[0], a[1]) for a in fn.atoms(b)):
-            if p and re.match(r'^\(%s < \(\w+ \+ #2\)\)$' % re.escape(lenp), k):
+            # any spelling of "fewer than two bytes from pos on": a relational test of the length against a position
+            # with a constant offset (len < pos + 2, pos + 1 >= len, pos > len - 2, ...); the loop condition has no offset
+            if re.search(r'\b%s\b' % re.escape(lenp), k) and re.search(r' (<|<=|>|>=) ', k) and re.search(r'#[12]\b', k) \
+                    and '&&' not in k and '||' not in k:
                 stops.add(b)
     if not stops or cont is None:
         raise AnalysisBroken('C14.R15: the stop for an incomplete sequence (len < pos + 2) not found')
@@ -879,7 +883,102 @@ def r15(ctx):
            if bad else 'no return of RESULT_CONTINUE is decided on such a path')
 
 
+def switch_groups(fn, sw):
+    """the case groups of a switch statement: list of (set of label values, 'default' for the default label; list of the
+    statement nodes executed for them up to the break, following fall-through)"""
+    body = fn.nodes[sw].get('body')
+    groups = []
+    for c in fn.nodes[body].get('ch', []):
+        v = fn.nodes[c]
+        if v['k'] in ('CaseStmt', 'DefaultStmt'):
+            labels = set()
+            x = c
+            while fn.nodes[x]['k'] in ('CaseStmt', 'DefaultStmt'):
+                xv = fn.nodes[x]
+                labels.add('default' if xv['k'] == 'DefaultStmt' else fn.val(xv['lhs']))
+                x = xv['sub']
+            groups.append([labels, [x]])
+        elif groups:
+            groups[-1][1].append(c)
+    # fall-through: a group that does not end in a jump continues with the next one
+    res = []
+    for i, (labels, stmts) in enumerate(groups):
+        allst = list(stmts)
+        j = i
+        while j + 1 < len(groups) and fn.nodes[groups[j][1][-1]]['k'] not in ('BreakStmt', 'ReturnStmt', 'ContinueStmt'):
+            j += 1
+            allst += groups[j][1]
+        res.append((labels, allst))
+    return res
+
+
+def r16(ctx):
+    ctx.mark('decoder-deferral', 'C14.R16')
+    ctx.rule('C14.R16', 'a two-byte sequence is deferred to the next call (more = true behind the cursor advance, answered with '
+             'RESULT_CONTINUE) only if handling it now could overwrite or drop the symbol already extracted in this call: the '
+             'deferral is reached only for commands whose case of the decoder switch stores *value or writes the "value '
+             'stored" flag. A sequence that yields nothing for the caller (info, error report, unknown command) is consumed '
+             'at once - deferred, it makes the caller come back with timeout 0 for a symbol that does not exist, and the '
+             'telegram in progress is given up', minimum=1)
+    fb = ctx.fb
+    fn = fb.fn(DEC)
+    ctx.touch(fn)
+    mv = more_var(ctx, fn)
+    if mv is None:
+        raise AnalysisBroken('C14.R16: the return of RESULT_CONTINUE was not recognised')
+    mores = [nid for nid, d, rhs, op, lhs in fn.assignments() if d and d.endswith(':' + mv) and rhs is not None and fn.val(rhs) != 0 and op != 'init']
+    sws = []
+    for sw in fn.all('SwitchStmt'):
+        groups = switch_groups(fn, sw)
+        nlab = sum(len(g[0]) for g in groups)
+        if nlab >= 5:
+            sws.append((sw, groups))
+    if len(sws) != 1:
+        raise AnalysisBroken('C14.R16: the command switch of the decoder was not recognised')
+    sw, groups = sws[0]
+    ckey = fn.key(fn.nodes[sw]['cond'])
+    stores = set(nid for nid, d, rhs, op, lhs in fn.assignments() if lhs is not None and fn.key(lhs) == '*' + fn.P(2))
+    flagvar = None
+    for nid, d, rhs, op, lhs in fn.assignments():
+        if op == '=' and rhs is not None and fn.val(rhs) == 1 and d and any(fn.block_of(nid) == fn.block_of(st) for st in stores):
+            flagvar = d
+    if flagvar is None or not stores:
+        raise AnalysisBroken('C14.R16: the "value stored" flag was not recognised')
+    flagw = set(nid for nid, d, rhs, op, lhs in fn.assignments() if d == flagvar and op != 'init')
+    writing, silent = set(), set()
+    for labels, stmts in groups:
+        inside = set()
+        for st in stmts:
+            inside |= set(fn.walk(st))
+        (writing if inside & (stores | flagw) else silent).update(labels)
+    subs = buffer_reads(fn)
+    if len(subs) < 2:
+        raise AnalysisBroken('C14.R16: buffer reads not recognised')
+    n = 0
+    for m in mores:
+        if fn.line_of(m) <= subs[1][0]:
+            continue  # in front of the second byte: a plain symbol
+        n += 1
+        grp = set()
+        for labels, stmts in groups:
+            if any(m in set(fn.walk(st)) for st in stmts):
+                grp |= labels
+        if grp:
+            bad = sorted(str(x) for x in grp & silent)
+            ok = not bad
+        else:
+            # not inside a case: every command for which the site is reachable counts
+            need = [('(%s == #%d)' % (ckey, v), True) for v in sorted(x for x in writing if x != 'default')]
+            ok = bool(need) and fn.needs_one_of(m, need)
+            bad = sorted(str(x) for x in silent)
+        ctx.ob('C14.R16', fn, m, ok, 'deferral of a sequence',
+               'reached only for commands whose handling touches the extracted symbol: %s%s' % (ok, '' if ok else ' (also for command(s) %s, which yield nothing)' % ', '.join(bad)))
+    if n < 1:
+        raise AnalysisBroken('C14.R16: no deferral of a sequence found')
+
+
 def run(ctx):
+    r16(ctx)
     r15(ctx)
     r12(ctx)
     r13(ctx)
